@@ -156,3 +156,103 @@ def _(self, attribute, key_attribute, value_attribute):
                   key_attribute, value_attribute, _i))
     invariant(2, lambda _i, _acc: _i <= len(value_node.pairs)
               and _acc == without_key(value_node.pairs, key_attribute, _i))
+
+
+@contract("yatiml/helpers.py::Node.seq_attribute_to_map")
+def _(self, attribute, key_attribute, value_attribute, strict):
+    properties('C15')
+    sort('value_attribute', 'PV')
+    sort('strict', 'bool')
+    sort('mapping_values', 'Seq[YPair]')
+    sort('seen_keys', 'Set[str]')
+    requires(self.yaml_node.kind == MAP)
+    requires(pv_is_none(value_attribute) or pv_is_str(value_attribute))
+    modifies(self.yaml_node)
+    # errors: the attribute given twice (Node.get_attribute), an item whose
+    # key attribute is missing, given twice or not a string, and - in strict
+    # mode only - two items with the same key
+    raises(SeasoningError, when=cnt(self.yaml_node.pairs, attribute,
+                                    len(self.yaml_node.pairs)) > 1
+           or (has(self.yaml_node, attribute)
+               and first_value(self.yaml_node, attribute).kind == SEQ
+               and (not s2m_valid(
+                   first_value(self.yaml_node, attribute).items,
+                   key_attribute,
+                   len(first_value(self.yaml_node, attribute).items))
+                   or (strict and not s2m_distinct(
+                       first_value(self.yaml_node, attribute).items,
+                       key_attribute,
+                       len(first_value(self.yaml_node, attribute).items))))))
+    # not applicable (missing, not a sequence, an item that is not a mapping
+    # with one string key attribute, keys not unique): nothing happens at all
+    ensures(implies(
+        not has(old(self.yaml_node), attribute)
+        or first_value(old(self.yaml_node), attribute).kind != SEQ
+        or not s2m_valid(first_value(old(self.yaml_node), attribute).items,
+                         key_attribute,
+                         len(first_value(old(self.yaml_node),
+                                         attribute).items))
+        or not s2m_distinct(first_value(old(self.yaml_node), attribute).items,
+                            key_attribute,
+                            len(first_value(old(self.yaml_node),
+                                            attribute).items)),
+        self.yaml_node == old(self.yaml_node)))
+    # otherwise only that attribute's value changes: it becomes a plain
+    # mapping at the sequence's position, one entry per item in item order,
+    # keyed by the item's key node, the value being the item without its key
+    # attribute (or, short form, the sole remaining value attribute's value)
+    ensures(implies(
+        has(old(self.yaml_node), attribute)
+        and first_value(old(self.yaml_node), attribute).kind == SEQ
+        and s2m_valid(first_value(old(self.yaml_node), attribute).items,
+                      key_attribute,
+                      len(first_value(old(self.yaml_node), attribute).items))
+        and s2m_distinct(first_value(old(self.yaml_node), attribute).items,
+                         key_attribute,
+                         len(first_value(old(self.yaml_node),
+                                         attribute).items)),
+        same_header(self.yaml_node, old(self.yaml_node))
+        and self.yaml_node.pairs == upd_value(
+            old(self.yaml_node).pairs, at(old(self.yaml_node), attribute),
+            N(MAP, MAP_TAG, '', empty_nodes(),
+              s2m_pairs(first_value(old(self.yaml_node), attribute).items,
+                        key_attribute, value_attribute,
+                        len(first_value(old(self.yaml_node),
+                                        attribute).items)),
+              first_value(old(self.yaml_node), attribute).smark,
+              first_value(old(self.yaml_node), attribute).emark))))
+    invariant(0, lambda _i: self.yaml_node == old(self.yaml_node)
+              and _i <= len(first_value(old(self.yaml_node), attribute).items)
+              and s2m_valid(first_value(old(self.yaml_node), attribute).items,
+                            key_attribute, _i)
+              and s2m_distinct(
+                  first_value(old(self.yaml_node), attribute).items,
+                  key_attribute, _i)
+              and seen_keys == s2m_seen(
+                  first_value(old(self.yaml_node), attribute).items,
+                  key_attribute, _i))
+    invariant(1, lambda _i: same_header(self.yaml_node, old(self.yaml_node))
+              and has(old(self.yaml_node), attribute)
+              and first_value(old(self.yaml_node), attribute).kind == SEQ
+              and s2m_valid(first_value(old(self.yaml_node), attribute).items,
+                            key_attribute,
+                            len(first_value(old(self.yaml_node),
+                                            attribute).items))
+              and s2m_distinct(
+                  first_value(old(self.yaml_node), attribute).items,
+                  key_attribute,
+                  len(first_value(old(self.yaml_node), attribute).items))
+              and _i <= len(first_value(old(self.yaml_node), attribute).items)
+              and self.yaml_node.pairs == upd_value(
+                  old(self.yaml_node).pairs,
+                  at(old(self.yaml_node), attribute),
+                  with_items(
+                      first_value(old(self.yaml_node), attribute),
+                      s2m_mid(first_value(old(self.yaml_node),
+                                          attribute).items,
+                              key_attribute, _i)
+                      + first_value(old(self.yaml_node),
+                                    attribute).items[_i:]))
+              and mapping_values == s2m_pairs(
+                  first_value(old(self.yaml_node), attribute).items,
+                  key_attribute, value_attribute, _i))
